@@ -26,6 +26,37 @@ CLAIMS = {
          "memory allocated during the call and nothing is stored into the receiver; NewSlimTrie/NewSlimIndex have no write "
          "effect on the caller's keys, values, option struct, the bools it points to, or the encoder."),
    design="4/C20"),
+
+ "C02": dict(
+   technique="labelled information-flow analysis of the builder (context-cloned abstract interpretation over go/ssa) + call-graph routing",
+   text=("Structural necessary condition decided for all key/value lists: the bit position at which a node's labels are cut and its "
+         "children split carries no keep-mask/value/DedupValue label given the node's key range, is the value recorded as the node's "
+         "prefix end, and the significant-bit index is built over the caller's whole key slice — the mechanism by which a de-duplicated "
+         "key falls to its left neighbour; plus SlimIndex.RangeGet -> SlimTrie.RangeGet routing and one shared three-way descent. "
+         "Does not decide the three-way search itself (rank values at run time)."),
+   design="4/C02"),
+ "C04": dict(
+   technique="labelled flow (option witnesses) + CFG dominance/post-dominance gates + sibling-decoder agreement",
+   text=("Decides the refusal clause (a nil test of a builder-computed witness of EACH prefix option panics before any traversal, for "
+         "all three scan APIs), the every-value-encoder clause (scan value bytes are located only by the leaf array decoder Get uses; no "
+         "GetEncodedSize(nil) fixed-width belief on read paths), the stop clause (false callback result ends ScanFrom; ScanFromTo's "
+         "wrapper returns false or the callback's result), delegation on every path and stickiness of exhaustion. Does not decide order/"
+         "uniqueness/completeness of yielded keys or bound inclusivity (runtime rank values)."),
+   design="4/C04"),
+ "C13": dict(
+   technique="labelled information-flow analysis of the builder (noninterference of prefix options on shape wire fields)",
+   text=("Decided for all inputs: no shape field of the wire message (node types, label bitmaps, short table, step presence, leaves) "
+         "depends by data or control flow on option InnerPrefix, LeafPrefix or Complete, so all modes with equal DedupValue build the same "
+         "trie shape and retained key set and prefix options only add payload. This is the mechanism and a necessary condition of "
+         "monotonicity; it does not decide that the query side uses the payload only to reject."),
+   design="4/C13"),
+ "C17": dict(
+   technique="labelled information-flow analysis of the builder (key-material taint to wire fields and store events)",
+   text=("Decided for every key set: values that can hold key bytes are stored into builder state or the returned message only on "
+         "paths where option InnerPrefix or LeafPrefix is known true (must-condition from transitive control dependence), and reach only "
+         "InnerPrefixes.Bytes / LeafPrefixes.Bytes; hence in filter mode nothing proportional to key length is stored. Does not decide the "
+         "numeric bound of 8 bytes/key + 256."),
+   design="4/C17"),
 }
 
 NA = {
